@@ -50,7 +50,8 @@ def gen_layout(rng):
     malformed = None
     if rng.random() < 0.3:
         malformed = rng.choice(["two-parts", "five-parts", "no-version", "alpha-major", "alpha-minor", "alpha-port", "neg-version", "float-version",
-                                "empty-short", "version-0-0", "version-256", "port-too-big", "bad-short", "reserved-short", "bad-namespace", "hex-version"])
+                                "empty-short", "version-0-0", "version-256", "port-too-big", "bad-short", "reserved-short", "bad-namespace", "hex-version",
+                                "empty-port", "empty-port-sidecar", "empty-major", "empty-minor", "trailing-dot-field"])
     return {"prefix": prefix, "root": root, "ns": nsp, "short": short, "ver": ver, "port": port, "ext": ext, "malformed": malformed}
 
 
@@ -78,6 +79,16 @@ def file_name(lay):
         parts[-1] = "0x1"
     elif m == "empty-short":
         parts = ([str(port)] if port is not None else []) + ["", str(ma), str(mi)]
+    elif m == "empty-port":
+        parts = ["", short, str(ma), str(mi)]  # hidden file: ".Short.1.0.dsdl"
+    elif m == "empty-port-sidecar":
+        parts = ["", "_" + short, str(ma), str(mi)]  # macOS sidecar: "._Short.1.0.dsdl"
+    elif m == "empty-major":
+        parts[-2] = ""
+    elif m == "empty-minor":
+        parts[-1] = ""
+    elif m == "trailing-dot-field":
+        parts = parts + [""]
     elif m == "version-0-0":
         parts[-2:] = ["0", "0"]
     elif m == "version-256":
